@@ -618,14 +618,12 @@ SPLITS = {   # heavy analyses are case-split by the order pattern of these expre
     'F6-shutdown-fail-restore': [('t0', 'c0'), ('t0 + d1', 'c0 + c1')],
     'F6-shutdown-armfail-restore': [('t0', 'c0'), ('t0 + d1', 'c0 + c1')],
     'F5-fail-while-down-holding': [('t0', 'c0'), ('t0 + d1', 'c0 + c1')],
-    'F7-size1-inBB': [('b0', 'b1'), ('b0', '2')],
-    'F7-size1-in1B1': [('b1', '1'), ('b1', '3')],
     'F2-fan-in-two-producers-same-instant': [('c0', 'c1'), ('2 * c0', 'c1')],
     'F3-gates-n3': [('c1', 'c2'), ('c0', 'c1')],
 }
 
 
-FIFO = ('F7-sizeNone-', 'F7-buffer-into-batcher-sizeNone')
+FIFO = ('F7-sizeNone-', 'F7-buffer-into-batcher-sizeNone', 'F7-size1-inBB', 'F7-size1-in1B1')
 
 
 LINE_PROPS = ['C02', 'C03', 'C05', 'C06', 'C08', 'C11', 'C13', 'C15', 'C16', 'C17']   # C04 needs pure serial lines
